@@ -36,6 +36,9 @@ func init() {
 	}
 	wrap("C01", []gozxing.BarcodeFormat{gozxing.BarcodeFormat_QR_CODE})
 	wrap("C02", []gozxing.BarcodeFormat{gozxing.BarcodeFormat_DATA_MATRIX})
+	wrap("C09", []gozxing.BarcodeFormat{gozxing.BarcodeFormat_QR_CODE,
+		gozxing.BarcodeFormat_CODE_39, gozxing.BarcodeFormat_CODE_93, gozxing.BarcodeFormat_CODE_128, gozxing.BarcodeFormat_ITF,
+		gozxing.BarcodeFormat_CODABAR, gozxing.BarcodeFormat_EAN_13, gozxing.BarcodeFormat_EAN_8, gozxing.BarcodeFormat_UPC_A})
 	wrap("C13", []gozxing.BarcodeFormat{gozxing.BarcodeFormat_QR_CODE, gozxing.BarcodeFormat_DATA_MATRIX})
 	wrap("C15", []gozxing.BarcodeFormat{gozxing.BarcodeFormat_QR_CODE})
 	wrap("C03", []gozxing.BarcodeFormat{
@@ -248,6 +251,42 @@ func reuseDerive(r *Rng, p reuseJob) reuseJob {
 		}
 		return j
 	}
+	if r.Chance(0.3) { // same symbol, other DECODE hints: a reader must not remember a hint of an earlier call
+		type dv struct {
+			k gozxing.DecodeHintType
+			v interface{}
+			s string
+		}
+		dpool := []dv{{gozxing.DecodeHintType_TRY_HARDER, true, "TRY_HARDER"}}
+		switch p.f {
+		case gozxing.BarcodeFormat_CODABAR:
+			dpool = append(dpool, dv{gozxing.DecodeHintType_RETURN_CODABAR_START_END, true, "RETURN_CODABAR_START_END"})
+		case gozxing.BarcodeFormat_CODE_39:
+			dpool = append(dpool, dv{gozxing.DecodeHintType_ASSUME_CODE_39_CHECK_DIGIT, true, "ASSUME_CODE_39_CHECK_DIGIT"})
+		case gozxing.BarcodeFormat_CODE_128:
+			dpool = append(dpool, dv{gozxing.DecodeHintType_ASSUME_GS1, true, "ASSUME_GS1"})
+		case gozxing.BarcodeFormat_ITF:
+			dpool = append(dpool, dv{gozxing.DecodeHintType_ALLOWED_LENGTHS, []int{len(p.content)}, fmt.Sprint("ALLOWED_LENGTHS=", len(p.content))},
+				dv{gozxing.DecodeHintType_ALLOWED_LENGTHS, []int{len(p.content) + 2}, fmt.Sprint("ALLOWED_LENGTHS=", len(p.content)+2)})
+		case gozxing.BarcodeFormat_EAN_13, gozxing.BarcodeFormat_EAN_8, gozxing.BarcodeFormat_UPC_A, gozxing.BarcodeFormat_UPC_E:
+			dpool = append(dpool, dv{gozxing.DecodeHintType_ALLOWED_EAN_EXTENSIONS, []int{2, 5}, "ALLOWED_EAN_EXTENSIONS=2,5"})
+		case gozxing.BarcodeFormat_QR_CODE:
+			dpool = append(dpool, dv{gozxing.DecodeHintType_CHARACTER_SET, "ISO-8859-1", "CHARACTER_SET=ISO-8859-1"},
+				dv{gozxing.DecodeHintType_CHARACTER_SET, "Shift_JIS", "CHARACTER_SET=Shift_JIS"},
+				dv{gozxing.DecodeHintType_CHARACTER_SET, "no-such-charset", "CHARACTER_SET=no-such-charset"},
+				dv{gozxing.DecodeHintType_PURE_BARCODE, true, "PURE_BARCODE"})
+		case gozxing.BarcodeFormat_DATA_MATRIX:
+			dpool = append(dpool, dv{gozxing.DecodeHintType_PURE_BARCODE, true, "PURE_BARCODE"})
+		}
+		if p.dh != nil && r.Bool() {
+			j.dh, j.dhs = nil, "-"
+		} else {
+			h := dpool[r.Intn(len(dpool))]
+			j.dh = map[gozxing.DecodeHintType]interface{}{h.k: h.v}
+			j.dhs = h.s
+		}
+		return j
+	}
 	type hv struct {
 		k gozxing.EncodeHintType
 		v interface{}
@@ -418,10 +457,36 @@ func (in *reuseInst) run(j reuseJob) string {
 			return mh + "bitmap-ERR"
 		}
 		res, err := in.r[j.f].Decode(bmp, j.dh)
+		first := ""
 		if err != nil {
-			return mh + "read-ERR:" + errKind(err)
+			first = "read-ERR:" + errKind(err)
+		} else {
+			first = reuseResult(res)
 		}
-		return mh + reuseResult(res)
+		// the SAME BinaryBitmap scanned once more (applications try one reader after another, or the same reader again
+		// with TRY_HARDER, on one bitmap): the answer must be the answer for a new bitmap of the same image.
+		if !is2D || j.scale == 1 {
+			dh2 := j.dh
+			if j.scale%2 == 0 {
+				dh2 = map[gozxing.DecodeHintType]interface{}{gozxing.DecodeHintType_TRY_HARDER: true}
+				for k, v := range j.dh {
+					dh2[k] = v
+				}
+			}
+			again := func(b *gozxing.BinaryBitmap) string {
+				r2, e2 := in.r[j.f].Decode(b, dh2)
+				if e2 != nil {
+					return "read-ERR:" + errKind(e2)
+				}
+				return reuseResult(r2)
+			}
+			same := again(bmp)
+			nb, _ := gozxing.NewBinaryBitmapFromImage(reuseRender(m, scale, pad, j.flip))
+			if other := again(nb); same != other {
+				return mh + "BITMAP-REUSE-DIFFERS second scan of the same BinaryBitmap: " + same + " ; new BinaryBitmap of the same image: " + other
+			}
+		}
+		return mh + first
 	})
 }
 
@@ -457,6 +522,10 @@ func reuseSuite(c *Ctx, prop string, fs []gozxing.BarcodeFormat) {
 				jobs[i], family[i] = reuseGenJob(rr, fs[rr.Intn(len(fs))]), i
 			}
 			fresh[i] = newReuseInst().run(jobs[i])
+			if strings.Contains(fresh[i], "BITMAP-REUSE-DIFFERS") {
+				c.Oracle("reuse", false, "bitmap-reuse:"+jobs[i].f.String(), "fresh instances, one BinaryBitmap decoded twice: ["+jobs[i].String()+"]", c05Short(fresh[i]))
+				return
+			}
 			switch {
 			case strings.Contains(fresh[i], "-ERR"):
 				c.Note("reuse:fresh-error:" + jobs[i].f.String() + ":" + fresh[i][strings.Index(fresh[i], "-ERR")-5:])
